@@ -112,7 +112,17 @@ func mergeConfigDict(opts *options, to, from *Config) Error {
 		}()
 	}
 
-	for k, v := range dict {
+	// Settings are merged in the order of their names, so that the result of
+	// merging over a reference to a setting that is merged as well does not
+	// depend on the order of map iteration.
+	keys := make([]string, 0, len(dict))
+	for k := range dict {
+		keys = append(keys, k)
+	}
+	sort.Strings(keys)
+
+	for _, k := range keys {
+		v := dict[k]
 		ctx := context{
 			parent: cfgSub{to},
 			field:  k,
